@@ -343,8 +343,8 @@ class Session:
         return "new list objects around the same event objects"
 
     def st_vandal(self, rng):
-        if not self.results:
-            return None
+        if not self.results or any(self.results[-1] is l for l in self.lists.values()):
+            return None            # nothing returned yet / the result IS an argument list (merge with no keys)
         vandalise(self.results[-1], self.input_ids())
         return "the previous call's result was overwritten (fields of its new events rebound, list emptied); same arguments again"
 
